@@ -282,6 +282,17 @@ def check(cx):
                    "byte with id = byte*8 + bit (and does not go through is_transaction_aborted): after a clean reopen some rolled-back "
                    "transactions are not loaded as aborted (their rows become visible) or others are loaded wrongly")
 
+    # bits are cleared by VACUUM only, which removes the aborted tuples first: recovery and everything else leave the bitmap
+    # alone (the rows of a transaction rolled back before the last checkpoint are still in the data file)
+    for nm in ("clear_aborted_up_to", "clear_aborted_bitmap"):
+        for fid in sorted(x for x in p.fns if x.endswith("::" + nm)):
+            for caller in sorted(K.callers_of(p, fid)):
+                root = p.fn(caller).root or caller
+                okc = root in ("Database::vacuum", K.PAGER + "::clear_aborted_up_to")
+                cx.verdict(okc, r4, "%s<-%s" % (fid.rsplit("::", 2)[-2] + "::" + nm, root), p.fn(caller).where(), "cleared by VACUUM",
+                           "%s clears bits of the persisted aborted bitmap outside VACUUM: rolled-back transactions whose tuples are still in "
+                           "the data file become committed after the next reopen" % root)
+
     # ---- C09.4b every abort path reaches the bitmap ------------------------------------------------------
     r4b = cx.rule("C09.4b", "MPT/WMC: TransactionCoordinator::abort persists the id on every success path and all "
                   "rollback funnels (Session::abort_transaction, Drop for Session, Drop for TransactionHandle) reach it", floor=4)
